@@ -76,7 +76,7 @@ def generate(rng, tier):
         t = rand_tree(rng, rng.choice([1, 2, 3, 4]))
         T = enc(t)
         cls = rng.choice([0, 1, 2])
-        yield dict(tag='flatten', lines=['(tree items %s)' % T, '(tree keys %s)' % T, '(tree values %s)' % T])
+        yield dict(tag='flatten', lines=['(tree items %s %d)' % (T, cls), '(tree keys %s %d)' % (T, cls), '(tree values %s %d)' % (T, cls)])
         items = [tuple(p) + (_get(t, p),) for p in paths(t)]
         if rng.random() < 0.15 and items:
             items = items + [rng.choice(items)]              # duplicate path -> ValueError
@@ -93,7 +93,33 @@ def generate(rng, tier):
                 p = p + ('deeper',)                           # walks into a leaf
             elif r < 0.5 and len(p) > 1:
                 p = p[:-1]                                    # a branch
-            yield dict(tag='getitem', cls=cls, lines=['(tree get %s %s)' % (T, enc(tuple(p)))])
+            elif r < 0.6:
+                # a missing key WITH a dot: dictattr / Dict resolve it part by part (their dotted fallback), a dict raises KeyError
+                q = rng.choice(ps)
+                i = rng.randrange(len(q))
+                p = q[:i] + ('.'.join(q[i:]),) if rng.random() < 0.7 else q[:i] + ('.'.join(q[i:]) + '.zz',)
+            tag = 'getitem' if tuple(p) in ps else 'getitem-unlisted'
+            yield dict(tag=tag, lines=['(tree get %s %s %d)' % (T, enc(tuple(p)), cls)])
+            # the string form 'a.b.c' (split on dots: a key that itself contains a dot cannot be addressed this way)
+            yield dict(tag='getitem-str' + ('' if tuple(p) in ps and not any('.' in k for k in p) else '-unlisted'),
+                       lines=['(tree gets %s %s %d)' % (T, enc('.'.join(p)), cls)])
+            yield dict(tag='tree_get', lines=['(tree tget %s %s %s %d)' % (T, enc(tuple(p)), enc(rng.choice(LEAVES)), cls)])
+        # tree_setitem (in place): new paths, existing leaves, through a leaf, ignore list; tuple and string forms
+        p = rng.choice(ps)
+        r = rng.random()
+        if r < 0.3:
+            p = p[:-1] + (rng.choice(KEYS),)
+        elif r < 0.5:
+            p = p + (rng.choice(KEYS[:4]),)                   # through a leaf: the leaf is replaced by a branch
+        elif r < 0.6:
+            p = (rng.choice(KEYS), rng.choice(KEYS))
+        elif r < 0.65:
+            p = ()                                            # ValueError
+        ig = rng.choice([[], [], [None], [None, 'x']])
+        v = rng.choice(LEAVES)
+        yield dict(tag='setitem', lines=['(tree tset %s %s %s %s %d)' % (T, enc(tuple(p)), enc(v), enc(ig), cls)])
+        if p:
+            yield dict(tag='setitem-str', lines=['(tree tsets %s %s %s %s %d)' % (T, enc('.'.join(p)), enc(v), enc(ig), cls)])
     n = 1200 if tier == 'quick' else 30000
     for _ in range(n):
         t = rand_tree(rng, rng.choice([1, 2, 3]))
@@ -101,9 +127,11 @@ def generate(rng, tier):
         u = t if r < 0.08 else ({} if r < 0.12 else rand_update(rng, t))
         ig = rng.choice([[], [], [], [None], [None, 'x']])
         cls = rng.choice([0, 1, 2])
+        ucls = cls if rng.random() < 0.6 else rng.choice([0, 1, 2])      # e.g. Dict + plain dict with nested plain dicts
         tag = 'update-self' if u is t else 'update-empty' if not u else 'update-ignore' if ig else 'update'
-        yield dict(tag=tag, lines=['(tree update %s %s %s %d)' % (enc(t), enc(u), enc(ig), cls),
-                                   '(tree updateh %s %s %s %d)' % (enc(t), enc(u), enc(ig), cls)])   # the heap model
+        tag += '' if ucls == cls else '-mixed-classes'
+        yield dict(tag=tag, lines=['(tree update %s %s %s %d %d)' % (enc(t), enc(u), enc(ig), cls, ucls),
+                                   '(tree updateh %s %s %s %d %d)' % (enc(t), enc(u), enc(ig), cls, ucls)])   # the heap model
     for c in gen_table_cases(rng, tier):
         yield c
     n = 150 if tier == 'quick' else 3000
@@ -179,19 +207,46 @@ def run_line(state, sx):
     from pyg_base import tree_items, tree_keys, tree_values, items_to_tree, tree_update, tree_getitem, Dict
     op, args = sx[1], sx[2:]
     if op in ('items', 'keys', 'values'):
-        t = proto.dec(args[0])
+        t = build(proto.dec(args[0]), int(args[1]) if len(args) > 1 else 0)
+        st = snapshot(t)
         f = {'items': tree_items, 'keys': tree_keys, 'values': tree_values}[op]
-        return 'ok ' + enc(f(t))
+        res = f(t)
+        if snapshot(t) != st:
+            return 'mutated tree: %s' % enc(_plain(t))
+        return 'ok ' + enc(res)
     if op == 'fromitems':
         items = proto.dec(args[0])
         res = items_to_tree(items)
         return 'ok ' + enc(_plain(res))
-    if op == 'get':
-        t = proto.dec(args[0])
-        return 'ok ' + enc(_plain(tree_getitem(t, list(proto.dec(args[1])))))
+    if op in ('get', 'gets', 'tget'):
+        from pyg_base import tree_get
+        cls = int(args[-1]) if len(args) > (3 if op == 'tget' else 2) else 0
+        t = build(proto.dec(args[0]), cls)
+        st = snapshot(t)
+        p = proto.dec(args[1])
+        p = list(p) if op != 'gets' else p
+        try:
+            res = tree_get(t, p, proto.dec(args[2])) if op == 'tget' else tree_getitem(t, p)
+        finally:
+            if snapshot(t) != st:
+                return 'mutated tree: %s' % enc(_plain(t))
+        return 'ok ' + enc(_plain(res))
+    if op in ('tset', 'tsets'):
+        from pyg_base import tree_setitem
+        cls = int(args[4]) if len(args) > 4 else 0
+        t = build(proto.dec(args[0]), cls)
+        p = proto.dec(args[1])
+        res = tree_setitem(t, p, proto.dec(args[2]), ignore=proto.dec(args[3]))
+        if res is not None:
+            return 'wrongtype %s' % type(res).__name__
+        bad = _classes(t, type(t))
+        if bad:
+            return 'wrongtype %s inside the tree' % bad
+        return 'ok ' + enc(_plain(t))
     if op in ('update', 'updateh'):       # updateh: same call; the model side runs the heap machine
         cls = int(args[3]) if len(args) > 3 else 0
-        t, u, ig = build(proto.dec(args[0]), cls), build(proto.dec(args[1]), cls), proto.dec(args[2])
+        ucls = int(args[4]) if len(args) > 4 else cls
+        t, u, ig = build(proto.dec(args[0]), cls), build(proto.dec(args[1]), ucls), proto.dec(args[2])
         st, su = snapshot(t), snapshot(u)
         res = tree_update(t, u, ignore=ig) if ig else tree_update(t, u)
         if snapshot(t) != st:
@@ -221,6 +276,18 @@ def run_line(state, sx):
         pat, rows = proto.dec(args[0]), proto.dec(args[1])
         return 'ok ' + enc(_plain(table_to_tree(None, pat, rows)))
     return 'bad-op'
+
+
+def _classes(x, c):
+    """new branches are created with the class of the tree (`base = type(tree)`)"""
+    if isinstance(x, dict):
+        if type(x) is not c:
+            return type(x).__name__
+        for v in x.values():
+            b = _classes(v, c)
+            if b:
+                return b
+    return None
 
 
 def _plain(x):
